@@ -88,12 +88,17 @@ Definition node_view_sameb (a b : node) : bool :=
 Definition job_tasks (c : cache) : gmap positive task :=
   filter (fun kv => in_job c (snd kv) = true) (c_heap c).
 
+(* the flags a NodeInfo derives from the labels / annotations of its node object *)
+Definition nflags (c : cache) (n : positive) : bool * bool * Z :=
+  let a := default no_attr (c_nattr c !! n) in (na_over_node a, na_offline a, na_zone a).
+
 Definition view_eqb (a b : cache) : bool :=
   map_sameb task_view_sameb (job_tasks a) (job_tasks b) &&
   map_sameb cjob_view_sameb (filter (fun kv => job_visible (snd kv) = true) (c_jobs a))
                             (filter (fun kv => job_visible (snd kv) = true) (c_jobs b)) &&
   map_sameb node_view_sameb (filter (fun kv => node_visible (snd kv) = true) (c_nodes a))
                             (filter (fun kv => node_visible (snd kv) = true) (c_nodes b)) &&
+  gmap_allb (fun n ni => negb (n_has_node ni) || bool_decide (nflags a n = nflags b n)) (c_nodes a) &&
   bool_decide (list_to_set (c_nodelist a) =@{gset positive} list_to_set (c_nodelist b)) &&
   bool_decide (c_queues a = c_queues b).
 
@@ -120,6 +125,7 @@ Definition law_untouched (before after : cache) : bool :=
   map_sameb task_view_sameb (c_heap before) (c_heap after) &&
   map_sameb cjob_sameb (c_jobs before) (c_jobs after) &&
   map_sameb node_exact_sameb (c_nodes before) (c_nodes after) &&
+  gmap_allb (fun n _ => bool_decide (nflags before n = nflags after n)) (c_nodes before) &&
   bool_decide (c_nodelist before = c_nodelist after) &&
   bool_decide (c_queues before = c_queues after) &&
   bool_decide (c_errq before = c_errq after) && bool_decide (c_delq before = c_delq after).
